@@ -89,11 +89,12 @@ pub struct ModeOracle {
     acked_fragments: u64,
     emissions_after_ack_checked: u64,
     passed_packets: u64,
+    marks_checked: u64,
 }
 
 impl ModeOracle {
     pub fn new(property: &'static str) -> Self {
-        Self { property, conns: BTreeMap::new(), index: ConnIndex::default(), steps: BTreeMap::new(), fragments_seen: 0, resends_seen: 0, ts_emitted: 0, ts_deadline_checked: 0, acked_fragments: 0, emissions_after_ack_checked: 0, passed_packets: 0 }
+        Self { property, conns: BTreeMap::new(), index: ConnIndex::default(), steps: BTreeMap::new(), fragments_seen: 0, resends_seen: 0, ts_emitted: 0, ts_deadline_checked: 0, acked_fragments: 0, emissions_after_ack_checked: 0, passed_packets: 0, marks_checked: 0 }
     }
 }
 
@@ -137,6 +138,15 @@ impl Oracle for ModeOracle {
                                 c.acked_at.entry(*f).or_insert(*call);
                                 self.acked_fragments += 1;
                             }
+                        }
+                    }
+                    T::FragmentAcked { sequence_id, fragment_id } => {
+                        // the sender stops retransmitting this fragment from now on: that is only
+                        // right if an accepted acknowledgement covers a frame which carried it
+                        self.marks_checked += 1;
+                        if c.emitted.contains_key(sequence_id) && !c.acked_at.contains_key(&(*sequence_id, *fragment_id)) {
+                            let mode = c.emitted.get(sequence_id).map(|i| i.mode).unwrap_or(0);
+                            return viol(prop, "marked_acknowledged_without_ack", format!("endpoint {}: fragment {} of {} packet id {} was marked acknowledged (and will not be retransmitted again) although no acknowledged frame carried it", ep, fragment_id, mode_name(mode), sequence_id), *call);
                         }
                     }
                     _ => (),
@@ -237,6 +247,7 @@ impl Oracle for ModeOracle {
         a("fragments_acknowledged", self.acked_fragments);
         a("emissions_checked_against_processed_ack", self.emissions_after_ack_checked);
         a("packets_passed_by_window", self.passed_packets);
+        a("fragment_acknowledgement_marks_checked", self.marks_checked);
     }
 
     fn nontrivial(&self) -> bool {
